@@ -23,6 +23,21 @@ PROPS = {
         ],
         "gen": [],
     },
+    "C13": {
+        "level_text": "Lean 4 theorems over a model of the lexical path checks (file-tool / task resolver, patch path parser, checkpoint to_relative) AND, independently, of how the kernel walks a path string (osWalk: '..' pops, '.' and empty skip): for every byte string, an accepted path walked from the root stays below the root; absolute strings and strings with a '..' segment are refused; accepted checkpoint paths keep no '..' after the root is stripped. Tied to the code by correspondence: Path::components / is_absolute vs the model on generated strings, and the accept/refuse decision of every entry point (read, write atomic/plain, ls, grep, bash cwd, apply_patch, checkpoint create, create+rewind) vs the model; plus implementation oracles on a sentinel tree: nothing outside the root created/modified/deleted, a refused request leaves the workspace and the checkpoint store untouched, and read/ls/grep answer identically when only files outside the root (incl. ancestor .ignore/.gitignore, global gitignore) differ; process cwd = root and != root.",
+        "level_note": "Lean kernel; std::path::Path::components modelled (Unix) and diff-tested every run; the kernel's path walk is modelled without symlinks; what each tool does with an accepted path is covered by the sentinel oracles, not by a theorem; task cwd (ripd tasks) shares the same resolver code shape and is exercised by the C17 harness.",
+        "technique": "Lean 4 proof (lexical check vs kernel path walk, all byte strings) + differential correspondence + sentinel-tree oracles",
+        "design_ref": "§5 C13",
+        "trusted_base": COMMON_TB + [
+            "modelled, not verified: Path::components/is_absolute/strip_prefix (Unix), the kernel's resolution of '.', '..', '//' (no symlinks)",
+            "oracle-only (no theorem): the effects of each tool on an accepted path; ignore-file lookup of the `ignore` crate",
+        ],
+        "assumptions": [
+            "no symlinks inside the workspace (follow_symlinks defaults to false; symlinked directories are outside the model)",
+            "checkpoint creation accepts absolute paths that lie inside the root (the repository's own tests require it); the claim for it is confinement, not refusal",
+        ],
+        "gen": [],
+    },
     "C15": {
         "level_text": "Lean 4 theorems over an executable model of the provider byte pipe (UTF-8 carry buffer with U+FFFD replacement as Rust's from_utf8 reports errors, line-based SSE decoder, frame mapper, stop-at-[DONE] read loop): the SSE decoder is chunk-invariant at string level for every partition; exactly one provider frame per event with the payload unchanged; output text = concatenation of deltas; numbering contiguous for every body and chunking; byte-level chunk invariance of the whole pipe (theorem bytes_chunk_invariant, see evidence for whether this build includes it). Tied to the code by differential correspondence: bodies from an SSE grammar incl. invalid UTF-8 x partitions (one chunk, byte-at-a-time, every single split, random) through the real OpenResponsesSsePipe (exported under cfg rip_verif) and through the compiled model; plus unit correspondence for from_utf8 (valid_up_to, error_len) and SseDecoder; plus implementation oracles (chunking invariance against the one-chunk run, seq contiguity, derived text).",
         "level_note": "Lean kernel; JSON parsing and delta extraction are an uninterpreted function evaluated by serde_json on both sides; reqwest/hyper chunk delivery = any partition of the body; the read loop of stream_openresponses_request is mirrored by the exported pipe_feed (the real loop is exercised end to end by C07/C16 scenarios).",
